@@ -3,11 +3,11 @@
 package hashing
 
 // Contracts for the verifier in /verif (comment-only).
+// The internal state of a hasher (the underlying hash.Hash object) is outside
+// the modelled heap: Salted/Do change nothing a caller can observe.
 
 /*@
 func Hasher.Salted
-  modifies everything
 func Hasher.Do
-  modifies everything
 func Hasher.Len
 @*/
